@@ -49,6 +49,12 @@ CLAIMED = {
                   'invariance under permutation of declarations, templates, edges and conjuncts, operand-order symmetry; tied by comparing the extracted model\'s verdict with the implementation on targeted placements of every feature and on random documents.',
              design='4/C17',
              note='Trusted: hand model Feature.v (tied by correspondence), the abstraction of expressions to uses_fp/uses_clock flags realised by representative expressions, the XML renderer, extraction. Dynamic templates are modelled but not generated. Four defects repaired by fix: commits.'),
+ 'C11': dict(technique='Coq proof that the write-collection of the checker is complete for an inductive may-write specification over all statement forms, call chains and reference parameters; correspondence of stored function summaries and a context x write-form matrix on the real checker',
+             text='C11_writes_complete / C11_side_effect_free_sound: if the model of collect_possible_writes (over the summaries computed in declaration order) returns no symbol then no derivation of "evaluating e may write x" exists, '
+                  'where may-write unfolds called function bodies through every statement constructor, nested calls of any depth and non-const reference parameters (mutual induction over the derivation); likewise for reads. '
+                  'Tied by comparing function_t::changes/depends of random programs with the extracted summaries, and by 16 side-effect-free contexts x 31 write forms with side-effect-free twins on the real type checker.',
+             design='4/C11',
+             note='Trusted: hand model Effects.v (tied by summary correspondence), abstract-program renderer, extraction. Partial: recursion is excluded by the theorem\'s scoping hypothesis; that each context consults the write set is shown by the matrix, not by proof.'),
 }
 NOT_YET = 'check not built yet in this revision (work in progress, see DESIGN.md section 7 staging)'
 m = dict(version=1, setup_cmd='tools/setup.sh',
